@@ -22,7 +22,9 @@ abbrev State := Vector UInt64 25
   (a <<< (n % 64).toUInt64) ||| (a >>> ((64 - n % 64) % 64).toUInt64)
 
 /-- the state whose lane with index i = x + 5y is `g i` -/
-@[inline] def mk25 (g : Nat → UInt64) : State := Vector.ofFn fun i => g i.val
+def mk25 (g : Nat → UInt64) : State :=
+  #v[g 0, g 1, g 2, g 3, g 4, g 5, g 6, g 7, g 8, g 9, g 10, g 11, g 12, g 13, g 14, g 15, g 16, g 17, g 18, g 19,
+    g 20, g 21, g 22, g 23, g 24]
 
 /-! ### θ (Algorithm 1) -/
 def thetaC (s : State) (x : Nat) : UInt64 :=
@@ -87,7 +89,7 @@ def le64 (bs : List UInt8) : UInt64 :=
 
 /-- S ← S ⊕ (P ‖ 0^c) for a block P of r bytes (8 ∣ r, r ≤ 200): lane i gets the i-th 8-byte word of P -/
 def xorBlock (s : State) (blk : List UInt8) : State :=
-  Vector.ofFn fun i => if 8 * i.val < blk.length then s[i] ^^^ le64 (blk.drop (8 * i.val)) else s[i]
+  mk25 fun i => if 8 * i < blk.length then s.getD i 0 ^^^ le64 (blk.drop (8 * i)) else s.getD i 0
 
 /-! ### pad10*1 (Algorithm 9) and the SHAKE suffix -/
 /-- pad10*1(x, m) = 1 ‖ 0^j ‖ 1, j = (−m − 2) mod x -/
